@@ -220,6 +220,9 @@ func (m *RWMutex) TryRLock() bool {
 	return true
 }
 
+// WriterPending: a writer has announced itself and waits for the readers to leave (StepLevel; for harnesses)
+func (m *RWMutex) WriterPending() bool { return m.wpending }
+
 type rlocker RWMutex
 
 func (r *rlocker) Lock()   { (*RWMutex)(r).RLock() }
